@@ -48,6 +48,7 @@ type trH struct {
 	h      *txH
 	un     []*UntrustedNode
 	clock  int
+	nblk   int
 	asked  []trAsk
 	forgot [][]int
 }
@@ -87,6 +88,39 @@ func newTrH(t *testing.T, nt, nc int) *trH {
 }
 
 func (r *trH) txid(t int) bitcoin.Hash32 { return *r.h.txs[t].TxHash() }
+
+// confirmInBlock builds a block with transaction t on top of the node's tip, announces it, delivers it and lets the real
+// block processor handle it.
+func (r *trH) confirmInBlock(t int) error {
+	ctx := vCtx()
+	n := r.h.n
+	prev := *n.blocks.LastHash()
+	r.nblk++
+	hdr := wire.NewBlockHeader(1, &prev, &bitcoin.Hash32{}, 0, uint32(5000+r.nblk))
+	hdr.Timestamp = uint32(1600001000 + r.nblk)
+	mb := wire.NewMsgBlock(hdr)
+	mb.AddTransaction(csCoinbase(900 + r.nblk))
+	mb.AddTransaction(r.h.txs[t])
+	root, _ := mb.CalculateMerkleHash()
+	mb.Header.MerkleRoot = *root
+	msg := wire.NewMsgHeaders()
+	hd := mb.Header
+	msg.AddBlockHeader(&hd)
+	n.handleMessage(ctx, msg)
+	n.handleMessage(ctx, mb)
+	blk := n.state.NextBlock()
+	if blk == nil {
+		return fmt.Errorf("the block was not requested / buffered")
+	}
+	err := n.ProcessBlock(ctx, blk)
+	for {
+		x, _ := n.state.GetNextBlockToRequest()
+		if x == nil {
+			break
+		}
+	}
+	return err
+}
 
 // collect records the getdata requests connection c put on its outgoing channel.
 func (r *trH) collect(c int) {
@@ -149,9 +183,10 @@ func (r *trH) step(a trAct) (res string) {
 		r.collect(a.C)
 	case "Confirm":
 		// what ProcessBlock does for a transaction of the block when in sync: blocks.go:288, 474 (CleanupBlock)
-		h := r.txid(a.T)
-		n.memPool.RemoveTransaction(h)
-		n.CleanupBlock(ctx, []*bitcoin.Hash32{&h})
+		// a block that contains the transaction goes through the real header / block handlers and ProcessBlock
+		if err := r.confirmInBlock(a.T); err != nil {
+			return "ProcessBlock: " + err.Error()
+		}
 		r.forgot[a.T-1] = append(r.forgot[a.T-1], r.clock)
 	case "Tick":
 		n.memPool.VerifShiftClocks(trTick)
